@@ -581,6 +581,175 @@ def r12_10(chk, P):
     return n
 
 
+
+def r12_11(chk, P, rule='R12.11'):
+    chk.rule(rule, 'a clean-up releases only what was set up: a local aggregate with a release function (vorbis_info, vorbis_comment, '
+             'ogg_stream_state, oggpack_buffer, ...) is handed to that release function only on paths on which it has been '
+             'initialised -- by its init function, by memset, or by a callee that initialises the object behind its pointer '
+             'parameter (callee summaries by result class: "on every path" or "on every path to a zero return"; a call with a '
+             'zero-only summary splits the state by its result, so `ret=f(&x); if(ret)...` is exact).  K2 path flags per '
+             'object.  A failure exit taken before the callee reached its init call (an I/O fault on the first page read) leaves '
+             'the caller\'s stack object as it was: releasing it then walks and frees wild pointers')
+    import k6
+    import absint
+    import k2
+    from absint import V, K
+    RELEASE = k6.RELEASE
+    ALLREL = {f: r for r, fs in RELEASE.items() for f in fs}
+    INITS = {'vorbis_info_init': 'vorbis_info', 'vorbis_comment_init': 'vorbis_comment', 'ogg_stream_init': 'ogg_stream_state',
+             'ogg_sync_init': 'ogg_sync_state', 'oggpack_writeinit': 'oggpack_buffer', 'oggpack_readinit': 'oggpack_buffer',
+             'vorbis_block_init': 'vorbis_block', 'vorbis_synthesis_init': 'vorbis_dsp_state', 'vorbis_analysis_init': 'vorbis_dsp_state'}
+    INIT_ARG = {'vorbis_block_init': 1}
+
+    def addr_of_local(F, a):
+        an = F.ex[F.strip_casts(a)]
+        if an['k'] == 'un' and an['op'] == '&':
+            t = F.ex[F.strip_casts(an['c'][0])]
+            if t['k'] == 'ref' and t['decl'].get('kind') == 'var':
+                return t['decl']['id']
+        return None
+
+    def param_ref(F, a):
+        an = F.ex[F.strip_casts(a)]
+        if an['k'] == 'ref' and an['decl'].get('kind') == 'param':
+            return an['decl']['id']
+        return None
+
+    # callee summaries: (function key, param index) -> 'all' | 'zero' | None
+    summ = {}
+
+    def summary(G, k):
+        key = (P.key(G), k)
+        if key in summ:
+            return summ[key]
+        summ[key] = None
+        if G.entry is None or k >= len(G.params):
+            return None
+        pid = G.params[k]['id']
+
+        def inits(A, env, e):
+            nd = A.ex[e]
+            if nd['k'] != 'call':
+                return False
+            d = nd['callee'].get('d')
+            if d in INITS or d == 'memset':
+                i = INIT_ARG.get(d, 0)
+                return i < len(nd['c']) and param_ref(A.F, nd['c'][i]) == pid
+            return False
+        try:
+            A, h = k2.analyse(P, G, [('init', inits, True)])
+        except Exception:
+            return None
+        rets = k2.ret_value_classes(A)
+        if not rets:
+            return None
+        if all('init' in fl for (e, fl, v, env) in rets):
+            summ[key] = 'all'
+        elif all('init' in fl for (e, fl, v, env) in rets if v is None or (v.lo <= 0 <= v.hi)) and \
+                any(v is not None and v.lo <= 0 <= v.hi for (e, fl, v, env) in rets):
+            summ[key] = 'zero'
+        return summ[key]
+
+    n = 0
+    for F in P.functions():
+        if F.entry is None:
+            continue
+        locs = {vid: k6.base_record(v.get('t', '')) for vid, v in F.vars.items()
+                if '*' not in v.get('t', '') and '[' not in v.get('t', '') and k6.base_record(v.get('t', '')) in RELEASE}
+        if not locs:
+            continue
+        rels = []
+        for c in F.calls():
+            d = F.ex[c]['callee'].get('d')
+            if d in ALLREL and F.ex[c]['c']:
+                vid = addr_of_local(F, F.ex[c]['c'][0])
+                if vid in locs:
+                    rels.append((c, vid))
+        if not rels:
+            continue
+        tracked = {vid for _, vid in rels}
+
+        class H(k2.Flags):
+            def on_node(self, A, env, e, v):
+                fl = env.get('$flags', frozenset())
+                nd = A.ex[e]
+                if A.final and any(e == c for c, _ in rels):
+                    self.at.setdefault(e, set()).add(fl)
+                if nd['k'] == 'call':
+                    d = nd['callee'].get('d')
+                    if d in INITS or d == 'memset':
+                        i = INIT_ARG.get(d, 0)
+                        vid = addr_of_local(A.F, nd['c'][i]) if i < len(nd['c']) else None
+                        if vid in tracked:
+                            fl = fl | {vid}
+                    elif d and d not in ALLREL:
+                        G = P.get(d, A.F)
+                        if G is not None:
+                            for i, a in enumerate(nd.get('c', [])):
+                                vid = addr_of_local(A.F, a)
+                                if vid in tracked and summary(G, i) == 'all':
+                                    fl = fl | {vid}
+                elif nd['k'] == 'decl':
+                    for vv in nd['vars']:
+                        if vv.get('id') in tracked and vv.get('init'):
+                            fl = fl | {vv['id']}          # `= {0}` / struct copy
+                elif nd['k'] == 'assign' and nd['op'] == '=':
+                    l = A.ex[A.F.strip_casts(nd['c'][0])]
+                    if l['k'] == 'ref' and l['decl'].get('id') in tracked:
+                        fl = fl | {l['decl']['id']}
+                env['$flags'] = fl
+
+            def fork(self, A, env, e):
+                nd = A.ex[e]
+                if nd['k'] != 'call':
+                    return None
+                d = nd['callee'].get('d')
+                if not d or d in ALLREL or d in INITS:
+                    return None
+                G = P.get(d, A.F)
+                if G is None:
+                    return None
+                zs = [addr_of_local(A.F, a) for i, a in enumerate(nd.get('c', [])) if addr_of_local(A.F, a) in tracked and summary(G, i) == 'zero']
+                if not zs:
+                    return None
+                outs = []
+                cur = (env.get('$tmp') or {}).get(e)
+                for lo, hi, ini in ((0, 0, True), (-absint.INF, -1, False), (1, absint.INF, False)):
+                    e2 = env.copy()
+                    tmp = dict(e2.get('$tmp') or {})
+                    nv = V(lo, hi)
+                    if cur is not None:
+                        nv = cur.copy(lo=max(cur.lo, lo), hi=min(cur.hi, hi))
+                        if nv.is_bottom():
+                            continue
+                    tmp[e] = nv
+                    e2['$tmp'] = tmp
+                    if ini:
+                        e2['$flags'] = e2.get('$flags', frozenset()) | set(zs)
+                    outs.append(e2)
+                return outs
+        h = H([])
+        A = absint.Analyzer(P, F, hooks=h, partition=k2.partition)
+        try:
+            A.run()
+        except Exception as ex:
+            raise AnalysisBroken(f'{rule}: analysis of {F.name} failed: {ex}')
+        idx = {}
+        for c, vid in sorted(rels, key=lambda x: F.ex[x[0]]['loc']):
+            sets = h.at.get(c, set())
+            nm = F.vars[vid]['name']
+            i = idx.get(nm, 0)
+            idx[nm] = i + 1
+            if not sets:
+                continue            # unreachable
+            bad = [fl for fl in sets if vid not in fl]
+            n += 1
+            chk.ob(rule, F.name, f'released-only-when-set-up:{nm}#{i}', not bad, F.where(c),
+                   f'`{F.s(c)}`: {nm} has been initialised on all {len(sets)} path classes that reach the call' if not bad else
+                   f'`{F.s(c)}` is reachable on a path on which `{nm}` ({locs[vid]}) was never initialised -- e.g. after a callee that '
+                   'was to initialise it failed before its init call: the release function then follows whatever pointers the stack held')
+    return n
+
 def run(chk, P):
     r12_8(chk, P)
     chk.floor('R12.8', 1)
@@ -592,6 +761,8 @@ def run(chk, P):
     chk.floor('R12.9', 1)
     r12_10(chk, P)
     chk.floor('R12.10', 3)
+    r12_11(chk, P)
+    chk.floor('R12.11', 6)
     E, C = io_sets(P)
     chk.notes.append(f'I/O-capable functions: {len(E)}; of those error-carrying: {len(C)}; not error-carrying: {sorted(E - C)}')
     r12_1(chk, P, E, C)
